@@ -22,7 +22,7 @@ def sh(cmd, **kw):
 
 def run_one(e, tier):
     name = e["name"]
-    wt = "/tmp/sens/" + name
+    wt = "/tmp/sens/%s.%d" % (name, os.getpid())
     sh("git -C /repo worktree remove --force %s" % wt)
     shutil.rmtree(wt, ignore_errors=True)
     r = sh("git -C /repo worktree add -q --detach %s HEAD" % wt)
@@ -40,7 +40,7 @@ def run_one(e, tier):
         props = e["property"] if isinstance(e["property"], list) else [e["property"]]
         for p in props:
             t0 = time.time()
-            env = dict(os.environ, VERIF_REPO=wt, VERIF_BUILD_TAG=".sens." + name, VERIF_SHRINKTIME=os.environ.get("VERIF_SHRINKTIME", "8s"))
+            env = dict(os.environ, VERIF_REPO=wt, VERIF_BUILD_TAG=".sens.%s.%d" % (name, os.getpid()), VERIF_SHRINKTIME=os.environ.get("VERIF_SHRINKTIME", "8s"))
             rr = subprocess.run(["./check", p, tier], cwd=VERIF, env=env, stdout=subprocess.PIPE, stderr=subprocess.STDOUT, text=True)
             viol = [l for l in rr.stdout.splitlines() if l.startswith("VIOLATION")]
             first = ""
@@ -51,7 +51,7 @@ def run_one(e, tier):
                     break
             out.append({"property": p, "rc": rr.returncode, "violations": len(viol), "wall_s": round(time.time() - t0, 1), "first": first,
                         "tail": "" if rr.returncode == 1 else rr.stdout[-400:]})
-            shutil.rmtree(os.path.join(VERIF, "build", p + ".sens." + name), ignore_errors=True)
+            shutil.rmtree(os.path.join(VERIF, "build", p + ".sens.%s.%d" % (name, os.getpid())), ignore_errors=True)
         return {"name": name, "what": e.get("what", ""), "results": out, "detected": all(o["rc"] == 1 for o in out)}
     finally:
         sh("git -C /repo worktree remove --force %s" % wt)
